@@ -15,7 +15,7 @@ import json
 import os
 from typing import Dict, List, Set
 
-from .inline import inlined_program
+from .inline import inline_log, inlined_program
 from .model import FuncInfo, Program
 
 _ANCHORS_FILE = os.path.join(os.path.dirname(os.path.abspath(__file__)), 'anchors.json')
@@ -39,6 +39,8 @@ def normalised(prog: Program) -> Program:
     cached = prog.__dict__.get('_normalised')
     if cached is not None:
         return cached
+    orig = prog
+    prog = _flatten_mixins(prog)
     new = new_functions(prog)
     out = prog
     if new:
@@ -78,10 +80,125 @@ def normalised(prog: Program) -> Program:
                     break
             if not used:
                 dead.add(f.qualname)
+        out = _without(prog, out, {q for q in dead if out.funcs[q].name.startswith('_') and not out.funcs[q].name.endswith('__')
+                                   and any(f'`{out.funcs[q].name}`' in line for line in inline_log(out))})
         out.__dict__['dead_helpers'] = dead
     out.__dict__['_normalised'] = out
     prog.__dict__['_normalised'] = out
+    orig.__dict__['_normalised'] = out
     return out
+
+
+def _flatten_mixins(prog: Program) -> Program:
+    """Methods of a NEW class (none of its methods is in the anchor table) that a KNOWN class inherits directly are cloned
+    into that class, exactly where the method resolution order would find them: `class Request(_IdMixin, AbstractRequest)`
+    then looks to the rules like the class that defines the methods itself.  A pure mixin (its name occurs only in base
+    lists) loses the cloned methods, which nothing can reach through it."""
+    import copy
+    known_funcs = anchors()
+    known_classes = {q.rsplit('.', 1)[0] for q in known_funcs}
+
+    def is_new(ci) -> bool:
+        return bool(ci.methods) and ci.qualname not in known_classes and not any(m.qualname in known_funcs for m in ci.methods.values())
+    fresh = [ci for ci in prog.classes.values() if is_new(ci)]
+    if not fresh:
+        return prog
+    plan: Dict[str, List[tuple]] = {}      # module rel -> [(target class, mixin, method names)]
+    for ci in prog.classes.values():
+        if is_new(ci):
+            continue
+        for b in ci.bases:
+            if not (hasattr(b, 'methods') and b in fresh and b.module is ci.module):
+                continue
+            if any(isinstance(x, ast.Name) and x.id in ('super', '__class__') for m in b.methods.values() for x in ast.walk(m.node)):
+                continue
+            names = [n for n, m in b.methods.items() if prog.find_method(ci, n) is m]
+            if names:
+                plan.setdefault(ci.module.rel, []).append((ci, b, names))
+    if not plan:
+        return prog
+    trees = dict(prog.tree_overrides)
+    by_rel = {m.rel: m for m in prog.modules.values()}
+    log: List[str] = []
+    for rel, items in plan.items():
+        src = by_rel[rel].tree
+        tree = copy.deepcopy(src)
+        cdefs = {(x.name, x.lineno): x for x in ast.walk(tree) if isinstance(x, ast.ClassDef)}
+        # is the mixin referenced anywhere but in base lists?
+        base_ids = {id(y) for m in prog.modules.values() for x in ast.walk(m.tree) if isinstance(x, ast.ClassDef)
+                    for b in x.bases for y in ast.walk(b)}
+        cloned: Dict[tuple, Set[str]] = {}
+        users: Dict[tuple, int] = {}
+        for ci, mix, names in items:
+            tgt = cdefs[(ci.name, ci.node.lineno)]
+            mdef = cdefs[(mix.name, mix.node.lineno)]
+            for st in mdef.body:
+                if isinstance(st, (ast.FunctionDef, ast.AsyncFunctionDef)) and st.name in names:
+                    tgt.body.append(copy.deepcopy(st))
+            cloned.setdefault((mix.name, mix.node.lineno), set()).update(names)
+            log.append(f'{ci.qualname}: methods {sorted(names)} of new base class {mix.name} cloned into the class')
+        for (mname, mline), names in cloned.items():
+            pure = not any(isinstance(x, (ast.Name, ast.Attribute)) and (x.id if isinstance(x, ast.Name) else x.attr) == mname
+                           and id(x) not in base_ids for m in prog.modules.values() for x in ast.walk(m.tree))
+            heirs = [c for c in prog.classes.values() if any(getattr(b, 'name', None) == mname and getattr(b, 'module', None) is by_rel[rel]
+                                                             for b in c.bases)]
+            done = {ci.qualname for ci, mix, ns in items if mix.name == mname}
+            if pure and all(c.qualname in done for c in heirs):
+                mdef = cdefs[(mname, mline)]
+                # only methods every heir took over
+                every = set.intersection(*[set(ns) for ci, mix, ns in items if mix.name == mname])
+                mdef.body = [st for st in mdef.body if not (isinstance(st, (ast.FunctionDef, ast.AsyncFunctionDef)) and st.name in every)] \
+                    or [ast.copy_location(ast.Pass(), mdef.body[0])]
+        trees[rel] = tree
+    out = Program(prog.repo, prog.pkg, overrides=prog.overrides, tree_overrides=trees)
+    out.__dict__['flatten_log'] = log
+    return out
+
+
+def _without(prog: Program, out: Program, gone: Set[str]) -> Program:
+    """Private new helpers that were inlined into every caller and are referenced nowhere else (no call, no value use, no
+    string naming them anywhere in the package) are removed from the analysed program: they are not reachable code any more,
+    and as stand-alone functions their `self` would be the (possibly abstract) class they were moved to."""
+    if not gone:
+        return out
+    names = {out.funcs[q].name for q in gone}
+    # references are counted per helper, ignoring the bodies of the helpers to be removed
+    inside: Set[int] = set()
+    for q in gone:
+        inside |= {id(y) for y in ast.walk(out.funcs[q].node)}
+    still = set()
+    for m in out.modules.values():
+        for x in ast.walk(m.tree):
+            if id(x) in inside:
+                continue
+            nm = x.attr if isinstance(x, ast.Attribute) else x.id if isinstance(x, ast.Name) else \
+                x.value if isinstance(x, ast.Constant) and isinstance(x.value, str) else None
+            if nm in names:
+                still.add(nm)
+    gone = {q for q in gone if out.funcs[q].name not in still}
+    if not gone:
+        return out
+    import copy
+    trees = dict(out.tree_overrides)
+    by_rel = {m.rel: m for m in out.modules.values()}
+    todo: Dict[str, Set[tuple]] = {}
+    for q in gone:
+        f = out.funcs[q]
+        todo.setdefault(f.module.rel, set()).add((f.cls.name if f.cls is not None else None, f.name, f.node.lineno))
+    for rel, items in todo.items():
+        tree = copy.deepcopy(by_rel[rel].tree)
+        for x in ast.walk(tree):
+            body = getattr(x, 'body', None)
+            if not isinstance(body, list) or not isinstance(x, (ast.Module, ast.ClassDef)):
+                continue
+            cn = x.name if isinstance(x, ast.ClassDef) else None
+            keep = [st for st in body if not (isinstance(st, (ast.FunctionDef, ast.AsyncFunctionDef)) and (cn, st.name, st.lineno) in items)]
+            if len(keep) != len(body):
+                x.body = keep or [ast.copy_location(ast.Pass(), body[0])]
+        trees[rel] = tree
+    new = Program(out.repo, out.pkg, overrides=out.overrides, tree_overrides=trees)
+    new.__dict__['inline_log'] = inline_log(out) + [f'{q}: removed (inlined everywhere, unreferenced)' for q in sorted(gone)]
+    return new
 
 
 def write_anchor_table(prog: Program) -> int:
